@@ -51,6 +51,11 @@ TEXT = {
         "note": "Trusted: Lean kernel, correspondence harness, Node 20 as oracle. Legacy trailing-slash mappings and specifiers ending in / are excluded as in the property; percent-encoded specifiers are not generated (esbuild does not URL-decode them: candidate finding, not yet probed).",
         "technique": "Lean 4 proof on hand-written model + differential correspondence; Node-as-oracle resolution search",
     },
+    "C10": {
+        "level": "Lean theorems over a model of chunk assignment: executable reachability is graph reachability (pigeonhole, any graph size), every static cross-chunk import goes to a chunk shared by strictly more entry points hence no static import cycle, edges only between existing chunks, each live file in exactly one chunk, used bindings and everything an entry reaches are covered by a static chunk import. Tied by correspondence with real --splitting builds via the metafile. Run-time equivalence with the unsplit bundle is a search (every order of entry points in one Node runtime). One recorded known finding.",
+        "note": "Trusted: Lean kernel, the correspondence harness and metafile reader, Node 20 as run-time oracle. Modelled at file granularity (esbuild assigns whole files to chunks); cross-chunk export aliasing and the renamer are covered only by the search.",
+        "technique": "Lean 4 proof on hand-written model + differential correspondence; Node run-time search",
+    },
     "C12": {
         "level": "Lean theorems that hex colour shortening is applied exactly when it preserves the colour value (all 32-bit colours), tied by correspondence. Cascade preservation of minification, lowering and @import bundling is checked by an independent cascade evaluator over an enumerated universe of elements x environments x properties: a search. Two recorded known findings.",
         "note": "Trusted: Lean kernel, correspondence harness, the evaluator's reading of the cascade (layers, importance, specificity, order) for compound selectors only. Colour-space maths, gradients, nesting expansion and CSS modules are not covered yet.",
